@@ -671,6 +671,52 @@ func GenSession(prop string, seed uint64, thorough bool) *Scenario {
 			sc.HorizonMs = closeAt + 30000 + g.pick(500, 2000)
 		}
 	}
+	// C12: the last batch of a graceful close carries data that takes its time (a slow io.Reader), handed over while no
+	// poll is pending; the client meanwhile goes on submitting - the session must not be gone (its requests refused)
+	// before the response that carries its last packets is out
+	if prop == "C12" && !sc.FaultFree && g.p(0.08) {
+		c := &sc.Clients[0]
+		ms := g.pick(10, 30)
+		if c.Transport == "polling" && c.Upgrade == "" && len(c.Cand) == 0 && len(c.Raw) == 0 && c.StopAtMs == 0 && c.CloseAtMs == 0 && ms+6*c.LatencyMs+30 < pt/2 {
+			c.PollGapMs = g.pick(10, 30)
+			openAt := c.StartMs + 2*c.LatencyMs
+			t := g.rng(100, sc.HorizonMs/2)
+			sc.App = append(sc.App, AppOp{AtMs: openAt + t, Task: "slowlast-" + c.Name, Op: "send", Sess: c.Name, ID: c.Name + ".sl", Size: 8, Binary: true, SlowMs: ms})
+			sc.App = append(sc.App, AppOp{AtMs: openAt + t + g.pick(1, 3), Task: "closer2-" + c.Name, Op: "close", Sess: c.Name})
+			for k := 0; k < 3; k++ {
+				c.Sends = append(c.Sends, ClientMsg{AtMs: t + g.pick(2, 8, 15, 25, 40), ID: fmt.Sprintf("%s.k%d", c.Name, k), Size: 6})
+			}
+		}
+	}
+	// the application's connection listener closes the session it has just been handed, or takes its time while the
+	// client goes away: the registry has to follow (C04), a later request naming the session is refused (C05)
+	if (prop == "C04" || prop == "C05" || prop == "C03" || prop == "C06") && !sc.FaultFree && g.p(0.12) {
+		cl := sc.Clients[g.IntN(len(sc.Clients))]
+		if len(cl.Raw) == 0 {
+			r := ReentSpec{Event: "connection", Call: g.picks("close-discard", "close", "sleep", "close-discard"), Sess: cl.Name, Nth: 1}
+			if r.Call == "sleep" {
+				r.Ms = g.pick(5, 20, 50)
+			}
+			sc.Reent = append(sc.Reent, r)
+		}
+	}
+	// a WebSocket peer that goes silent and stops reading: the server's writer goroutine stalls on the full window in
+	// the middle of a batch, and the application closes the session (or the server) meanwhile
+	if (prop == "C03" || prop == "C12" || prop == "C09" || prop == "C18") && !sc.FaultFree && g.p(0.06) {
+		for ci := range sc.Clients {
+			c := &sc.Clients[ci]
+			if c.Transport != "websocket" || len(c.Raw) > 0 || c.CloseAtMs > 0 {
+				continue
+			}
+			t := g.rng(100, sc.HorizonMs/2)
+			c.StopAtMs, c.RecvWindow, c.Faults = t, g.pick(64, 256, 1024), nil
+			openAt := c.StartMs + 2*c.LatencyMs
+			sc.App = append(sc.App, AppOp{AtMs: openAt + t + 5, Task: "stall-" + c.Name, Op: "send", Sess: c.Name, ID: c.Name + ".st0", Size: 5000})
+			sc.App = append(sc.App, AppOp{AtMs: openAt + t + 6, Task: "stall-" + c.Name, Op: "send", Sess: c.Name, ID: c.Name + ".st1", Size: 8})
+			sc.App = append(sc.App, AppOp{AtMs: openAt + t + g.pick(10, 50), Task: "stallclose-" + c.Name, Op: g.picks("close-discard", "close", "close-discard"), Sess: c.Name})
+			break
+		}
+	}
 	// C07: an application 'heartbeat' listener that takes time must not disturb the heartbeat itself (the
 	// timers are dealt with before the event is emitted)
 	if prop == "C07" && g.p(0.25) {
@@ -911,7 +957,12 @@ func genCandScript(g *G, upgradeTimeoutMs, latMs int, tie bool) []CandOp {
 		if w < 0 {
 			w = 0
 		}
-		s = append(s, CandOp{Op: "probe"}, CandOp{Op: "waitpong"}, CandOp{Op: "upgrade", WaitMs: w, Arg: "attimeout"})
+		switch g.IntN(3) {
+		case 0: // ... or its connection ending (close frame / stream end) around that instant
+			s = append(s, CandOp{Op: "probe"}, CandOp{Op: "waitpong"}, CandOp{Op: "disconnect", WaitMs: w + g.pick(0, latMs)})
+		default:
+			s = append(s, CandOp{Op: "probe"}, CandOp{Op: "waitpong"}, CandOp{Op: "upgrade", WaitMs: w, Arg: "attimeout"})
+		}
 	case 0: // unexpected first packet
 		s = append(s, other())
 	case 1: // silent candidate: the upgrade timeout has to clean up
